@@ -289,6 +289,23 @@ fn gen(r: &mut Rng, tier: &Tier, out: &mut Vec<String>) {
         let batch = *r.pick(&[1usize, 4, 32]); let timeout = *r.pick(&[1u64, 5, 20]);
         extra_p_line(r, &db, Kind::Http, "h".to_string(), &conns, &tr, workers, batch, timeout, out);
     }
+    // all three pools: Ethernet frames whose MAC addresses start with octets that resemble an IP version nibble (0x45..0x4f,
+    // 0x6X), the loopback signature 1e 00, zero or ff: the dispatch hash must still find the flow behind the link header
+    for case in 0..tier.scale(24, 240) {
+        let kind = [Kind::Tls, Kind::Http, Kind::Tcp][case % 3];
+        let n = 2 + r.below(3) as usize;
+        let mut conns = Vec::new();
+        for j in 0..n {
+            let ck = match kind { Kind::Tcp => r.below(3), Kind::Tls => 1, _ => 0 };
+            let mut sp = ConnSpec::new(ck, j % 3 == 2, (case as u64 * 31 + j as u64 * 61) % 5000 + j as u64 * 6000);
+            sp.macs = Some(pick_macs(r));
+            conns.push(connection(r, &sp, 1_000_000));
+        }
+        let tr = interleave(r, &conns, case % 4 == 0);
+        let workers = *r.pick(&[1usize, 2, 4, 7, 16]);
+        let batch = *r.pick(&[1usize, 4, 32]); let timeout = *r.pick(&[1u64, 5, 20]);
+        extra_p_line(r, &db, kind, kind.tag().to_string(), &conns, &tr, workers, batch, timeout, out);
+    }
     // TLS pool, SLOW sender: a ClientHello in two or three segments; after its first segment the dispatcher sleeps for
     // several receive timeouts with nothing queued, then sends the rest
     for case in 0..tier.scale(6, 60) {
